@@ -12,6 +12,45 @@ W = {'req': 2, 'rel': 1, 'query': 0.4, 'addmatch': 1.5, 'rmmatch': 0.5, 'signal'
      'usignal': 1, 'close': 0.4, 'driver_other': 0.4, 'nodest': 0.2, 'monitor': 0.9}
 
 
+def call_then_monitor(rng):
+    """a connection that never added a match rule has calls outstanding when it becomes a monitor; afterwards the callees
+    answer, stay silent (reply timeout) or leave"""
+    cfg = {'replyTimeoutMs': 300} if rng.random() < 0.4 else None
+    rounds = [{'ops': {'1': [{'k': 'connect', 'uid': 0}, {'k': 'hello'}, {'k': 'addmatch', 'rule': gen_bus.NOC_RULE}]}},
+              {'ops': {'2': [{'k': 'connect', 'uid': 0}, {'k': 'hello'}] + ([{'k': 'req', 'n': 'com.example.B', 'f': 0}] if rng.random() < 0.5 else [])}},
+              {'ops': {'3': [{'k': 'connect', 'uid': 0}, {'k': 'hello'}, {'k': 'req', 'n': 'com.example.A', 'f': 0}]}},
+              {'ops': {'4': [{'k': 'connect', 'uid': 0}, {'k': 'hello'}]}}]
+    calls = []
+    ops = []
+    for j in range(rng.choice([1, 2, 3])):
+        dst = rng.choice(['com.example.A', {'slot': 3}, {'slot': 4}])
+        ops.append({'k': 'send', 'ty': 1, 'dst': dst, 'path': '/a', 'ifc': 'com.example.I', 'mem': 'Ma', 'sig': 'u', 'body': [j],
+                    'ser': 9001 + j, 'fl': 0})
+        calls.append((3 if dst != {'slot': 4} else 4, 9001 + j))
+    # somebody is also waiting for the monitor-to-be
+    rounds.append({'ops': {'1': [{'k': 'send', 'ty': 1, 'dst': {'slot': 2}, 'path': '/a', 'ifc': 'com.example.I', 'mem': 'Mb', 'sig': '',
+                                  'body': [], 'ser': 8001, 'fl': 0}]}})
+    rounds.append({'ops': {'2': ops}})
+    rounds.append({'ops': {'2': [{'k': 'monitor', 'rules': rng.choice([[], [], ["type='error'"], ["type='signal'"]]), 'flags': 0}]}})
+    tail = []
+    for callee in (3, 4):
+        r = rng.random()
+        mine = [c for c in calls if c[0] == callee]
+        if r < 0.45:
+            tail.append({'ops': {str(callee): [{'k': 'close'}]}})
+        elif r < 0.7 and mine:
+            tail.append({'ops': {str(callee): [{'k': 'send', 'ty': 2, 'dst': {'slot': 2}, 'rs': mine[0][1], 'sig': 's', 'body': ['late']}]}})
+        else:
+            tail.append({'ops': {str(callee): [{'k': 'query', 'q': 'list'}]}})
+    rng.shuffle(tail)
+    rounds += tail
+    if cfg:
+        rounds.append({'ops': {'1': [{'k': 'sleep', 'ms': 350}, {'k': 'query', 'q': 'list'}]}})
+    rounds.append({'ops': {'1': [{'k': 'send', 'ty': 4, 'path': '/a', 'ifc': 'com.example.I', 'mem': 'Sig', 'sig': '', 'body': []}]}})
+    rounds.append({'ops': {'1': [{'k': 'query', 'q': 'list'}]}})
+    return {'cfg': cfg or {}, 'rounds': rounds}
+
+
 def gen(rng, i):
     if i % 2 == 1 and gen.last is not None:
         # the same history without monitors: BecomeMonitor ops (and what the monitor says afterwards) removed
@@ -32,6 +71,9 @@ def gen(rng, i):
                 r['ops'][s] = keep
         gen.last = None
         return scn
+    if i % 8 == 6:
+        gen.last = call_then_monitor(rng)
+        return gen.last
     g = gen_bus.Gen(rng, nslots=4, nnames=2, w=W, eavesdrop=0.1, odd_rules=0.05,
                     cfg={'replyTimeoutMs': 300} if i % 6 == 4 else None)
     scn = g.scenario(nrounds=rng.choice([10, 14]), concurrency=0.3, burst=0.25)
